@@ -119,7 +119,16 @@ func genWorld(t *rapid.T, maxPerms int) *worldInfo {
 		timeSource := false
 		for j := 0; j < k; j++ {
 			d := dates[j]
-			switch c := rapid.IntRange(0, 9).Draw(t, "claimClass"); {
+			switch c := rapid.IntRange(0, 11).Draw(t, "claimClass"); {
+			case c >= 10:
+				// a node type (set, or given with add-attribute): queries that pin the type may be planned
+				// through the per-type candidate source
+				typ := rapid.SampledFrom(nodeTypes).Draw(t, "nodeType")
+				kind := "set-attribute"
+				if !has(p.ValuesAt("camliNodeType", time.Time{}), typ) && rapid.IntRange(0, 2).Draw(t, "typeAdded") == 0 {
+					kind = "add-attribute"
+				}
+				w.AddClaim(p, d, kind, "camliNodeType", typ)
 			case c <= 3:
 				tag := rapid.SampledFrom(tags).Draw(t, "tag")
 				if has(p.ValuesAt("tag", time.Time{}), tag) {
@@ -188,7 +197,14 @@ func and(a, b *search.Constraint) *search.Constraint {
 
 func genConstraint(t *rapid.T) (*search.Constraint, string) {
 	pn := &search.Constraint{CamliType: schema.TypePermanode}
-	switch rapid.IntRange(0, 8).Draw(t, "constraint") {
+	switch rapid.IntRange(0, 11).Draw(t, "constraint") {
+	case 9:
+		return attrC("camliNodeType", rapid.SampledFrom(nodeTypes).Draw(t, "ctype")), "nodeType=X"
+	case 10:
+		return and(attrC("camliNodeType", rapid.SampledFrom(nodeTypes).Draw(t, "ctype")), attrC("tag", rapid.SampledFrom(tags).Draw(t, "ctag"))), "and(nodeType=X,tag=Y)"
+	case 11:
+		// (a bare "or" of permanode constraints is refused with sorted results: documented TODO in onlyMatchesPermanode)
+		return and(pn, &search.Constraint{Logical: &search.LogicalConstraint{Op: "or", A: attrC("camliNodeType", nodeTypes[0]), B: attrC("camliNodeType", nodeTypes[1])}}), "and(permanode,or(nodeType=a,nodeType=b))"
 	case 0, 1:
 		return pn, "camliType=permanode"
 	case 2:
@@ -207,6 +223,8 @@ func genConstraint(t *rapid.T) (*search.Constraint, string) {
 		return and(attrC("title", rapid.SampledFrom([]string{"Alpha", "Gamma"}).Draw(t, "ctitle")), pn), "and(title,permanode)"
 	}
 }
+
+var nodeTypes = []string{"t:a", "t:b"}
 
 var sortNames = map[search.SortType]string{search.CreatedDesc: "-created", search.LastModifiedDesc: "-mod", search.UnspecifiedSort: "unspecified"}
 
